@@ -74,9 +74,20 @@ Print Assumptions C17_mail_needs_new_greeting.
 
 Theorem C17_handoff_after_switch : forall o sc pre mid b env msg post,
   trun o sc = pre ++ TSwitch :: mid ++ TE b (Handoff env msg) :: post ->
-  exists a f rs, ttrace_run (o_clear o) mid a_init = Some a /\ a_txn a = Some (f, rs) /\ env = env_of (o_liphost (o_clear o)) (Some (f, rs)).
+  exists a0 a f rs, ttrace_run (o_clear o) pre a_init = Some a0 /\ ttrace_run (o_clear o) mid (a_reset a0) = Some a
+    /\ a_txn a = Some (f, rs) /\ env = env_of (o_liphost (o_clear o)) (Some (f, rs)).
 Proof. exact handoff_after_switch. Qed.
 Print Assumptions C17_handoff_after_switch.
+
+(** (2, what is NOT discarded) tls_init does not touch xmitstat.authname: an authentication obtained in clear text is still
+    valid inside TLS.  This is what the code does; [ttrace_run] therefore resets the abstract state at the switch to
+    [a_reset a] = "nothing yet, but authenticated iff it was", and the witness [C17_auth_in_clear_text_relays_inside_tls] below
+    shows the consequence: AUTH in clear text, STARTTLS, and a recipient outside rcpthosts is accepted inside TLS without a
+    relay-list match and without a second AUTH.  (smtp_auth refuses a second AUTH on the connection anyway.) *)
+Theorem C17_auth_survives_switch : forall f o closes t evs t',
+  tstep f o closes t = (evs, Some t') -> In TSwitch evs -> authname (ss t') = authname (ss t).
+Proof. exact auth_survives_switch. Qed.
+Print Assumptions C17_auth_survives_switch.
 
 (** (3) "220 ready for tls" is the answer to STARTTLS only outside TLS, in ESMTP mode, in the EHLO state (mask 0x10 of
     the regenerated commands[] row), with a usable certificate and an empty clear-text reader ... *)
@@ -184,8 +195,8 @@ Definition ex_oracles : toracles :=
                                           | 60%N :: c :: _ => AP_ok [c] None RLocal          (* <x...> *)
                                           | _ => AP_nobracket end;
                    o_ext := fun _ => Ext_ok 0 0 None; o_relay := 0%Z; o_mx := fun _ => 0;
-                   o_qq := fun _ => QQ_ok; o_databytes := 0%N; o_liphost := []; o_check2822 := false; o_trace := fun _ _ _ _ _ => [67; 10]%N |};
-     o_trace_tls := fun _ _ _ _ _ => [84; 10]%N; o_certfile := true; o_tlsinit := true; o_eat := 5 |}.
+                   o_qq := fun _ => QQ_ok; o_databytes := 0%N; o_liphost := []; o_check2822 := false; o_authperm := false; o_auth := fun _ => Auth_multi; o_trace := fun _ _ _ _ _ _ => [67; 10]%N |};
+     o_trace_tls := fun _ _ _ _ _ _ => [84; 10]%N; o_certfile := true; o_tlsinit := true; o_eat := 5 |}.
 Definition ehlo : bytes := [69;72;76;79;32;120;13;10]%N.
 Definition starttls : bytes := [83;84;65;82;84;84;76;83;13;10]%N.
 Definition mail (c : N) : bytes := [77;65;73;76;32;70;82;79;77;58;60;c;62;13;10]%N.
@@ -205,6 +216,27 @@ Definition ex_script_injected : script :=
      sc_closes := false |}.
 Example C17_nonvacuous_injected :
   trun ex_oracles ex_script_injected
-  = [TE false (Reply 220%N); TE false (Note NBoundary); TE false (Note NHelo); TE false (Reply 250%N); TE false (Note NBadReset); TOffer;
+  = [TE false (Reply 220%N); TE false (Note NBoundary); TE false (Note NHelo); TE false (Note (NEsmtp true)); TE false (Reply 250%N); TE false (Note NBadReset); TOffer;
      TE false (Reply 503%N); TE false (Note NBad); TE false (Reply 503%N)].
+Proof. vm_compute. reflexivity. Qed.
+
+(** the authentication survives: relay list empty, AUTH accepted in clear text, then STARTTLS; inside TLS a recipient
+    outside rcpthosts is accepted *)
+Definition ex_oracles_auth : toracles :=
+  {| o_clear := {| o_helo := fun _ => true;
+                   o_addr := fun _ arg => match arg with
+                                          | 60%N :: c :: _ => AP_ok [c] None RNotLocal
+                                          | _ => AP_nobracket end;
+                   o_ext := fun _ => Ext_ok 0 0 None; o_relay := 0%Z; o_mx := fun _ => 0;
+                   o_qq := fun _ => QQ_ok; o_databytes := 0%N; o_liphost := []; o_check2822 := false;
+                   o_authperm := true; o_auth := fun _ => Auth_ok [117%N]; o_trace := fun _ _ _ _ _ _ => [67; 10]%N |};
+     o_trace_tls := fun _ _ _ _ _ _ => [84; 10]%N; o_certfile := true; o_tlsinit := true; o_eat := 5 |}.
+Definition ex_script_auth : script :=
+  {| sc_first := [ehlo; [65;85;84;72;32;120;13;10]%N; starttls];
+     sc_later := [(HsOk, [ehlo; mail 97; rcpt 98])];
+     sc_closes := false |}.
+Example C17_auth_in_clear_text_relays_inside_tls :
+  filter (fun e => match e with TE _ (Note (NAuth _)) | TSwitch | TE _ (Note (NRcpt _ _)) => true | _ => false end)
+         (trun ex_oracles_auth ex_script_auth)
+  = [TE false (Note (NAuth [117%N])); TSwitch; TE true (Note (NRcpt [98%N] RNotLocal))].
 Proof. vm_compute. reflexivity. Qed.
